@@ -954,6 +954,12 @@ pub unsafe extern "C" fn epoll_ctl(_ep: c_int, op: c_int, fd: c_int, ev: *mut li
         return -1;
     }
     if op == libc::EPOLL_CTL_ADD {
+        if EPCTL_ADD_FAILS_ONCE {
+            // the per-user watch limit is reached (ENOSPC) / no memory: registration is refused
+            EPCTL_ADD_FAILS_ONCE = false;
+            ERRNO = libc::ENOSPC;
+            return -1;
+        }
         kani::assume(EP.n < NEP);
         let i = EP.n;
         EP.n += 1;
@@ -1000,6 +1006,7 @@ pub unsafe fn ep_any_undelivered() -> bool {
 }
 pub static mut LOST_WAKEUP: bool = false;
 pub static mut POLL_EINTR_ONCE: bool = false;
+pub static mut EPCTL_ADD_FAILS_ONCE: bool = false;
 /// consecutive end-of-stream results of plain recv() (the call the crate uses for follow-up fragments)
 pub static mut EOF_RECVS: u8 = 0;
 #[no_mangle]
@@ -1173,6 +1180,10 @@ pub fn exit_proc(owner: u8) {
 }
 pub fn set_poll_times_out(b: bool) {
     unsafe { K.poll_verdict = if b { 1 } else { 0 } }
+}
+/// the next epoll_ctl(ADD) fails with ENOSPC
+pub fn set_epoll_add_fails_once(b: bool) {
+    unsafe { EPCTL_ADD_FAILS_ONCE = b }
 }
 /// the next poll(2) is interrupted by a signal (EINTR)
 pub fn set_poll_eintr_once(b: bool) {
